@@ -112,13 +112,25 @@ def sx(f, strs, ops, top=True):
     if z3.is_app(f):
         kind = f.decl().kind()
         if kind == z3.Z3_OP_RE_LOOP:
-            k = f"(KLoop {f.params()[0]}%N {f.params()[1]}%N)"
+            ps = f.params()
+            if len(ps) >= 2:
+                k = f"(KLoop {ps[0]}%N {ps[1]}%N)"
+                ops.append("#loop:" + ("hi=0" if ps[1] == 0 else "lo=hi" if ps[0] == ps[1] else "lo>hi" if ps[0] > ps[1] else "lo<hi"))
+            else:
+                k = f"(KLoopShort {g_list([str(x) + '%N' for x in ps])})"
+                ops.append("#short")
         elif kind == z3.Z3_OP_RE_POWER:
             k = f"(KPower {f.params()[0]}%N)"
+            ops.append(f"#pow:{min(f.params()[0], 2)}")
         else:
             k = KINDS.get(kind, "KOther")
         name = f.decl().name()
         ops.append(name if k == "KOther" else k.split()[0].strip("("))
+        if name in ("str.at", "str.substr", "str.indexof"):
+            for c in f.children()[1:]:
+                if z3.is_int_value(c):
+                    v = c.as_long()
+                    ops.append(f"#idx:{name}:" + ("neg" if v < 0 else str(v) if v <= 1 else ">1"))
         if name in ("str.<", "if") or (name == "not" and (not top or any(
                 z3.is_app(c) and c.decl().name() in ("and", "or", "=>", "not", "xor", "if") for c in f.children()))):
             ops.append("#bad")
@@ -218,6 +230,8 @@ def classes(info):
         ks.append("K_shadow_const")
     if "#bad" in info["ops"]:
         ks.append("K_smt_op")
+    if "#short" in info["ops"]:
+        ks.append("K_loop_arity")
     if len(set(info["numq_names"])) < len(info["numq_names"]):
         ks.append("K_numq_dup")
     return ks
@@ -241,15 +255,20 @@ def ev(f, t, g):
 def roundtrip(f, gname):
     """None if the property holds at f, else a short description of what fails"""
     g = GRAMMARS[gname]
-    u = unparse_isla(f)
+    ou = outcome(unparse_isla, f)
+    if ou[0] == "raise":
+        return f"unparse_isla raises {ou[1]}"
+    u = ou[1]
     o = outcome(parse_isla, u, g, SP, SE)
     if o[0] == "raise":
         return f"re-parse raises {o[1]}"
     f2 = o[1]
     if f2 != f:
         return "re-parsed constraint differs"
-    u2 = unparse_isla(f2)
-    if u2 != u:
+    ou2 = outcome(unparse_isla, f2)
+    if ou2[0] == "raise":
+        return f"unparse_isla of the re-parsed constraint raises {ou2[1]}"
+    if ou2[1] != u:
         return "text is not a fixpoint"
     for t in trees(gname)[:NTREES[0]]:
         if ev(f, t, g) != ev(f2, t, g):
@@ -261,6 +280,38 @@ def roundtrip(f, gname):
 STR_POOL = ['a', '', 'b c', 'x\\"y', '\\u{5c}', 'a\\u{5c}', '\\u{5c}\\"', '\\u{e9}', 'é', '\\u{0}', '\\u{0}z',
             '\\u{1f600}', 'a\\\\b', 'a\\b', '\n', '\\n', '\\u{5c}u{41}', '\\u{41}', '\\u0041', ' ', '1', '-0', '007',
             '\\u{2ffff}', '\\u{30000}', '\\u{}', '(', ';', '<var>', '\t', '\\\\u{41}', '\u4e2d', '~', '\\u{7f}', '\\u{80}']
+
+
+BOUNDS = [0, 1, -1, 2, 5, 0, 1]
+LOOP_BOUNDS = [(lo, hi) for lo in range(4) for hi in range(4)]
+
+
+def boundary_sources():
+    """deterministic block run on every tier: every (lo, hi) in {0..3}^2 of (_ re.loop lo hi) (hi = 0, lo = hi,
+    lo > hi included), (_ re.^ n) for n in 0..3, index arguments of str.at / str.substr / str.indexof and
+    integer literals at 0, 1, -1 and beyond, each inside a quantified constraint over the assignment grammar"""
+    out = []
+    for lo, hi in LOOP_BOUNDS:
+        out.append(f'forall <var> v: (str.in_re v ((_ re.loop {lo} {hi}) (str.to_re "a")))')
+    out.append('forall <var> v: str.in_re(v, re.++(((_ re.loop 2 0) (re.range "a" "c")), ((_ re.loop 0 0) re.allchar)))')
+    for n in range(4):
+        out.append(f'forall <var> v: (str.in_re v ((_ re.^ {n}) (re.range "a" "c")))')
+    for i in (0, 1, -1, 2, 5):
+        out.append(f'forall <var> v: (str.at v {i}) = "a"')
+        out.append(f'forall <var> v: (str.indexof v "a" {i}) >= {i}')
+        for j in (0, 1, -1, 3):
+            out.append(f'forall <var> v: str.substr(v, {i}, {j}) = "a"')
+    for lit in ("0", "1", "-1", "-0", "007", "00", "123456789012345678901", "-123456789012345678901"):
+        out.append(f"forall <var> v: str.len(v) > {lit}")
+        out.append(f"forall <digit> d: str.to.int(d) = {lit}")
+    out += ['forall <digit> d: str.to.int(d) = (- 1)', 'forall <digit> d: str.to.int(d) = (- 0 1)', 'forall <digit> d: (* 2 -1) <= str.to.int(d)',
+            'forall <var> v: (str.from_code 0) = v', 'forall <var> v: (str.in_re v (re.range "b" "a"))',
+            'forall <var> v: (str.in_re v (re.range "a" "a"))', 'exists int n: (forall <var> v: nth(0, v, start) and count(start, "<var>", n))',
+            'forall <var> v: nth(1, v, start)', 'forall <var> v: nth(-1, v, start)', 'forall <var> v: count(v, "<var>", 0)']
+    # fewer than two parameters: accepted by parse_isla, class K_loop_arity
+    out += ['forall <var> v: (str.in_re v ((_ re.loop 1) (str.to_re "a")))', 'forall <var> v: (str.in_re v ((_ re.loop 0) (str.to_re "a")))',
+            'forall <var> v: (str.in_re v (re.loop (str.to_re "a") 1 2))', 'forall <var> v: str.in_re(v, re.loop(str.to_re("a"), 0, 0))']
+    return out
 
 
 class SrcGen:
@@ -281,8 +332,9 @@ class SrcGen:
         if r < 0.75:
             return self.xpath(scope)
         if r < 0.85 and d < 2:
-            return self.rng.choice(['(str.++ {} {})', 'str.replace({}, {}, "z")', '(str.at {} 0)', 'str.substr({}, 0, 1)',
-                                    '(str.from_int (str.len {}))', '{} str.++ {}']).format(
+            i, j = self.rng.choice(BOUNDS), self.rng.choice(BOUNDS)
+            return self.rng.choice(['(str.++ {} {})', 'str.replace({}, {}, "z")', '(str.at {} %s)' % i, 'str.substr({}, %s, %s)' % (i, j),
+                                    '(str.from_int (str.len {}))', '{} str.++ {}', '(str.substr {} %s %s)' % (j, i)]).format(
                 self.strterm(scope, d + 1), self.strterm(scope, d + 1))
         return self.lit()
 
@@ -308,13 +360,13 @@ class SrcGen:
     def intterm(self, scope, d=0):
         r = self.rng.random()
         if r < 0.3:
-            return str(self.rng.choice([0, 1, 2, 17, -3, -1]))
+            return str(self.rng.choice([0, 1, 2, 17, -3, -1, "-0", "007", 0, 1, 123456789012345678901]))
         if r < 0.55:
             return f"str.len({self.strterm(scope)})"
         if r < 0.7:
             return f"str.to.int({self.strterm(scope)})"
         if r < 0.8:
-            return f"(str.indexof {self.strterm(scope)} {self.lit()} 0)"
+            return f"(str.indexof {self.strterm(scope)} {self.lit()} {self.rng.choice(BOUNDS)})"
         if r < 0.85:
             return f"(str.to_code {self.strterm(scope)})"
         if d < 2:
@@ -337,9 +389,15 @@ class SrcGen:
             return self.rng.choice(["re.++({}, {})", "re.union({}, {})", "(re.inter {} {})", "(re.diff {} {})",
                                     "{} re.++ {}", "(re.++ {} {} (re.+ (re.range \"0\" \"9\")))"]).format(
                 self.regex(d + 1), self.regex(d + 1))
-        if r < 0.88:
-            return f"((_ re.loop {self.rng.randint(0, 2)} {self.rng.randint(2, 4)}) {self.regex(d + 1)})"
-        return f"((_ re.^ {self.rng.randint(0, 3)}) {self.regex(d + 1)})"
+        if r < 0.86:
+            # boundary values on purpose: 0, 1, lo = hi, lo > hi, upper bound 0
+            lo, hi = self.rng.choice(LOOP_BOUNDS)
+            return f"((_ re.loop {lo} {hi}) {self.regex(d + 1)})"
+        if r < 0.89:
+            # forms with fewer than two parameters (class K_loop_arity)
+            return self.rng.choice(["((_ re.loop {n}) {r})", "(re.loop {r} {n} {m})", "re.loop({r}, {n}, {m})"]).format(
+                n=self.rng.choice([0, 1, 2]), m=self.rng.choice([0, 1, 2]), r=self.regex(d + 1))
+        return f"((_ re.^ {self.rng.choice([0, 1, 1, 2, 3])}) {self.regex(d + 1)})"
 
     def smt(self, scope, ints):
         r = self.rng.random()
@@ -458,6 +516,12 @@ def ast_formula(rng, d, scope, cnt):
             s = rng.choice(['a', 'a"b', 'a\\', '\\"', 'é', '\x00', '\x00\x00', 'a\\u', '\\u{41}', '\U0001f600', '\n', 'x y',
                             '\\\\', '"', '\x7f', '\x80', 'ÿ', 'Ā'])
             return SMTFormula(z3_eq(v.to_smt(), z3.StringVal(s)), v)
+        if k < 0.58:
+            lo, hi = rng.choice(LOOP_BOUNDS)      # z3py: hi = 0 builds the one-parameter loop (K_loop_arity)
+            r = z3.Loop(z3.Re(rng.choice(["a", "ab"])), lo, hi)
+            if rng.random() < 0.4:
+                r = z3.Concat(r, z3.Loop(z3.Range("a", "c"), hi, lo))
+            return SMTFormula(z3.InRe(v.to_smt(), r), v)
         if k < 0.7:
             w = rng.choice(scope)
             e = z3.And(z3.Length(v.to_smt()) > z3.IntVal(rng.randint(-2, 3)), z3.PrefixOf(w.to_smt(), v.to_smt()))
@@ -526,7 +590,7 @@ def run(run):
     n_src = 4500 if thorough else 360
     n_ast = 900 if thorough else 120
     cases, meta = [], []
-    hist = {"parsed": 0, "rejected": 0, "ast_first": 0, "unsupported": 0, "prop_fail_known": 0, "ops": {}, "classes": {}}
+    hist = {"parsed": 0, "rejected": 0, "ast_first": 0, "unsupported": 0, "prop_fail_known": 0, "ops": {}, "classes": {}, "boundaries": {}}
     failures = []      # genuine, not known
     seen = set()
     t0 = time.time()
@@ -539,17 +603,23 @@ def run(run):
         except Unsupported:
             hist["unsupported"] += 1
             return
-        text = unparse_isla(f)
+        try:
+            text = unparse_isla(f)
+            res_lit = f"(Ok {g_str(text)})"
+        except Exception as e:
+            text = "<raises " + type(e).__name__ + "> " + (src or lit_f[:200])
+            res_lit = f"(Raise {lib.exn_name(e)})"
         key = (gname, text)
         if key in seen:
             return
         seen.add(key)
-        cases.append(f"({lit_f}, {g_str(text)})")
+        cases.append(f"({lit_f}, {res_lit})")
         meta.append((gname, origin, src, text, f))
         nontriv = info["quant"] >= 1 and len(info["strs"]) >= 1
         run.count(key, nontriv)
         for o in set(info["ops"]) - {'#bad'}:
-            hist["ops"][o] = hist["ops"].get(o, 0) + 1
+            h = hist["boundaries"] if o.startswith("#") else hist["ops"]
+            h[o] = h.get(o, 0) + 1
         if origin == "src":
             why = roundtrip(f, gname)
             if why is not None:
@@ -564,6 +634,15 @@ def run(run):
         if len(run.cov["samples"]) < 4 and nontriv:
             run.sample({"source": src, "grammar": gname, "unparsed": text})
 
+    bsrc = boundary_sources()
+    hist["boundary_block"] = {"sources": len(bsrc), "accepted": 0}
+    for src in bsrc:
+        o = outcome(parse_isla, src, GRAMMARS["assgn"], SP, SE)
+        if o[0] == "ok":
+            hist["boundary_block"]["accepted"] += 1
+            consider(o[1], "assgn", "src", src)
+        else:
+            hist["rejected"] += 1
     for i in range(n_src):
         if time.time() - t0 > budget:
             break
@@ -584,9 +663,9 @@ def run(run):
     run.cov["generation_seconds"] = round(time.time() - t0, 1)
 
     disagreements = []
-    ok_def = "fun c : cformula * str => str_eqb (unparse (fst c)) (snd c)"
+    ok_def = "fun c : cformula * res str => res_eqb str_eqb (unparse_res (fst c)) (snd c)"
     try:
-        bad, dt = lib.coq_mismatches("c07a", "Outcome Unparse", ok_def, cases, shard=60 if not thorough else 150)
+        bad, dt = lib.coq_mismatches("c07a", "Outcome Unparse", ok_def, cases, shard=32 if not thorough else 150)
         run.cov["coq_seconds_unparse"] = round(dt, 1)
         for i in bad:
             gname, origin, src, text, f = meta[i]
